@@ -16,7 +16,7 @@ for d in sorted(glob.glob(os.path.join(HERE, 'seeded', pid + '-*'))):
         continue
     t = open(notes).read()
     letter = sid[-1]
-    which = 'A' if letter in 'ACEGIK' else 'B'
+    which = 'A' if letter in 'ACEGIKM' else 'B'
     parts = re.split(r'\n##+ ', t)
     sec = next((p for p in parts if re.match(r'(Mutant|Change|Patch)\s*' + which, p, re.I)), None)
     if sec is None:
